@@ -50,7 +50,7 @@ def replay_mass_basis(model, wd):
     f = model.get('_float', {})
     g = lambda k, d: float(f.get(k, d))
     args = [g('mh', 125), g('mH', 400), g('mA', 420), g('mHp', 440), g('sin_beta_minus_alpha', 0.9), g('lambda_6', 0), g('lambda_7', 0),
-            (g('v2', 0) / g('v1', 1) if 'v2' in f else g('tan_beta', 3)), g('m122', 40000), g('th0.sm.mw', 80.385), g('th0.sm.mz', 91.1876), g('th0.sm.alpha_em_mz', 1 / 128.0), g('ytype', 2)]
+            (g('v2', 0) / g('v1', 1) if 'v2' in f else g('tan_beta', 3)), g('m122', 40000), g('MVWm', g('th0.sm.mw', 80.385)), g('MVZ', g('th0.sm.mz', 91.1876)), g('th0.sm.alpha_em_mz', 1 / 128.0), g('ytype', 2)]
     exe = native.build_program(wd, REPLAY_MAIN, native.THDM_SRCS)
     r = subprocess.run([exe] + [repr(x) for x in args], capture_output=True, text=True, timeout=120)
     out = r.stdout.strip()
